@@ -158,4 +158,29 @@ NOT_APPLICABLE = {
     'C16': 'descriptor formulas are pure functions of coordinates, masses, cell and options.',
 }
 
+# dimensions added after the first rounds of seeded changes (DESIGN.md section 10): what the generators vary besides the schedule
+_MORE = {
+    'C18': ' Files are also rewritten value for value into dialects other programs write (simlib/foreign.py): big-endian DCD, fixed-atom DCD, '
+           'double- or single-precision TRR carrying velocities/forces, XYZ with blank comment lines; LAMMPS dumps in other column layouts with unsorted atom lines; '
+           'extension aliases and gz variants; atom_indices as arrays or slice objects; end-relative seeks where offered.',
+    'C02': ' File names are handed over as str or pathlib.Path; files also come in the dialects of simlib/foreign.py (big-endian / fixed-atom DCD, double-precision TRR with '
+           'velocities and forces, blank XYZ comments, GRO velocity columns) and in other LAMMPS column layouts.',
+    'C19': ' Cells may be orthorhombic, triclinic, or change kind from frame to frame; write calls may carry zero frames, a single frame without the frame axis, or '
+           'non-contiguous float64 views; one run in eight executes under python -O.',
+    'C20': ' Names may be mixed-case, dotted, contain blanks; paths may be relative or pathlib.Path objects; the overwrite flag is a bool, numpy bool or int; '
+           'saved trajectories have 0..12 frames; numbered restart files may pre-exist completely or partly.',
+    'C03': ' Index keys include Python and numpy integer scalars of either sign, 0-d arrays, slices with negative bounds, reversed and stepped slices, lists, ranges, '
+           'integer arrays with negative entries, boolean masks and Ellipsis.',
+    'C17': ' Cell lengths/angles are assigned as arrays, nested lists or (single frame) without the frame axis; saves go through every cell-carrying format, restart formats '
+           'with one frame or all frames (numbered files), and through foreign dialects of the saved file (big-endian DCD, double-precision TRR, GRO with velocities).',
+    'C04': ' For PDB files the bonds that must be stored as CONECT records (at least one atom outside the writer\'s list of standard residues) are compared on their own, '
+           'also when standard-named residues put the rest of the topology inside the recorded carrier limits.',
+    'C08': ' A quarter of the trajectories contain one degenerate frame (all zeros, or a carbonyl O placed on its C); about one run in eighty is a long trajectory of the whole '
+           'molecule (240-420 frames, result arrays beyond 2^24 elements) judged on a sample of frames.',
+}
+for _k, _v in _MORE.items():
+    META[_k]['rule'] += _v
+META['C18']['assumptions'] = COMMON_ASSUMPTIONS + ['files read by the handles are written by mdtraj\'s own writers and, for the foreign dialects, rewritten byte for byte by '
+                                                   'simlib/foreign.py from those; a precondition check (fresh sequential read returns frames 0..N-1) guards every run']
+
 BUILT.update(['C18', 'C02', 'C19', 'C20', 'C03', 'C17', 'C04', 'C08'])
